@@ -38,6 +38,13 @@ theorem C13_sends_never_block_fact :
     Facts.keeperSendsNonBlocking = true ∧ Facts.keeperSendsNonBlockingV2 = true ∧
     Facts.plotterMaxChanSizeV2 = Facts.plotterMaxChanSize ∧ 0 < Facts.plotterMaxChanSize := by decide
 
+/-- the model makes every request atomic under `stateLock`; that stands on the lock never being taken again
+    by a method called while it is held (sync.RWMutex is not re-entrant: a nested `RLock` deadlocks as soon as
+    a writer waits in between).  Regenerated fact: no keeper method that holds `stateLock` to its end calls
+    another keeper method that takes it — in the v1 and the v2 keeper. -/
+theorem C13_state_lock_not_reentered_fact :
+    Facts.keeperLockReentrant = [] ∧ Facts.keeperLockReentrantV2 = [] := by decide
+
 /-- the v2 keeper (`engine.v2/spacekeeper/skchia`) runs the same text as the v1 keeper in every function
     the model covers (request methods, queue, plotter loop, OnStop), so the theorems speak for both -/
 theorem C13_v2_same_code_fact : Facts.keeperV2SameAsV1 = true := by decide
